@@ -339,6 +339,9 @@ def _variant_typename_check(ctx, dd, v, roles):
     if renames:
         dd.add(bad('WIRE-1', inst, 'abstract-type variant carries a rename', loc, '__typename no longer selects it'))
         return
+    neutral = sorted(o[1] for o in TM.all_origins(S) if o[0] == 'field' and o[1] in NEUTRAL_OPTIONS)
+    if neutral:
+        dd.add(bad('OPT-1', inst, '__typename variant name depends on %s' % neutral, loc, 'the accepted __typename strings change with a Rust-side option'))
     badp = [(o, x) for o, x in ps if x or (o[0] == 'field' and o[1] not in TYPE_NAME_ORIGINS) or o[0] not in ('field', 'const')]
     consts = [o for o, x in ps if o[0] == 'const']
     if badp:
@@ -821,6 +824,17 @@ def rule_id(ctx):
                         for s in P.subterms(c[1]):
                             if s[0] == 'op' and s[1] == '==' and ('const', 'ID') in s[2]:
                                 has_id_test = True
+                unpreserved = []
+                for c in a.rconds:
+                    if c[0] == 'if':
+                        for s in P.subterms(c[1]):
+                            if s[0] == 'op' and s[1] == '==' and ('const', 'ID') in s[2]:
+                                other = [x for x in s[2] if x != ('const', 'ID')]
+                                if other and OPT + 'normalization' in TM.fields_in(other[0]) and not _id_preserving(other[0]):
+                                    unpreserved.append(other[0])
+                if unpreserved:
+                    dd.add(bad('ID-ATTACH', inst + '/normalized-name', 'the `== "ID"` test is applied to a name that went through a normalizer which does not keep "ID" unchanged', loc,
+                               'under normalization = rust no ID field gets the coercion (and the field type becomes an undefined `Id`)'))
                 if not has_id_test:
                     dd.add(bad('ID-ATTACH', inst, 'helper attached without testing that the field type is ID: ' + conds_text(a.rconds)[:160], loc,
                                'non-ID fields are coerced through the ID helper'))
